@@ -75,6 +75,38 @@ package sparseindex
 //@            result == ((f.row == -9223372036854775808 && rhs.row != -9223372036854775808) || (f.row != 9223372036854775807 && rhs.row == 9223372036854775807))
 //@   trusted_ensures result == fr_lt(f, rhs)
 //@   assigns nothing
+// Per data type the order is the order the data is sorted in (null first, then ascending values; false < true):
+// the left operand's value is read first, the right operand's second, and the comparison is lhs < rhs.
+//@   ghost k int = 0
+//@   ghost n1 bool = false
+//@   ghost n2 bool = false
+//@   ghost i1 int64 = 0
+//@   ghost i2 int64 = 0
+//@   ghost b1 bool = false
+//@   ghost b2 bool = false
+//@   ghost r1 Ptr = nil
+//@   ghost r2 Ptr = nil
+//@   call .IntegerValue
+//@     set i1 = (k == 0 ? ret0 : i1)
+//@     set i2 = (k == 1 ? ret0 : i2)
+//@     set n1 = (k == 0 ? ret1 : n1)
+//@     set n2 = (k == 1 ? ret1 : n2)
+//@     set r1 = (k == 0 ? recv : r1)
+//@     set r2 = (k == 1 ? recv : r2)
+//@     set k = k + 1
+//@   call .BooleanValue
+//@     set b1 = (k == 0 ? ret0 : b1)
+//@     set b2 = (k == 1 ? ret0 : b2)
+//@     set n1 = (k == 0 ? ret1 : n1)
+//@     set n2 = (k == 1 ? ret1 : n2)
+//@     set r1 = (k == 0 ? recv : r1)
+//@     set r2 = (k == 1 ? recv : r2)
+//@     set k = k + 1
+//@   ensures [int] k == 2 && old(f.cols[f.column].dataType) == influx.Field_Type_Int && f.row != 9223372036854775807 && f.row != -9223372036854775808 && rhs.row != 9223372036854775807 && rhs.row != -9223372036854775808 ==> \
+//@           result == ((!n1 && !n2 && i1 < i2) || (n1 && !n2))
+//@   ensures [bool] k == 2 && old(f.cols[f.column].dataType) == influx.Field_Type_Boolean && f.row != 9223372036854775807 && f.row != -9223372036854775808 && rhs.row != 9223372036854775807 && rhs.row != -9223372036854775808 ==> \
+//@           result == ((!n1 && !n2 && !b1 && b2) || (n1 && !n2))
+//@   ensures [operands] k == 2 ==> r1 == f.cols[f.column].column && r2 == rhs.cols[rhs.column].column
 
 //@ func (*FieldRef).Equals
 //@   requires f != nil && rhs != nil
